@@ -222,6 +222,12 @@ def TABLES():
                        ('serverCodes_signal', 'signalProcess'), ('serverCodes_clear', 'clearProcessLogs')):
         cs = sorted(_server_codes(rpc, meth), key=order.index)
         out.append('def %s : List Int := [%s]' % (lean, ', '.join('Faults_' + c for c in cs)))
+    # ... and by the per-name methods of add / remove / pid
+    out.append('-- supervisor/rpcinterface.py: Faults raised by addProcessGroup / removeProcessGroup / getProcessInfo (incl. _update)')
+    for lean, meth in (('serverCodes_add', 'addProcessGroup'), ('serverCodes_remove', 'removeProcessGroup'),
+                       ('serverCodes_getinfo', 'getProcessInfo')):
+        cs = sorted(_server_codes(rpc, meth), key=order.index)
+        out.append('def %s : List Int := [%s]' % (lean, ', '.join('Faults_' + c for c in cs)))
     # do_update.stop_failures: the statuses of a stopProcessGroup result that do not count as a failure
     sf = _find(ctl, 'DefaultControllerPlugin.do_update.stop_failures')
     comp = next((n for n in ast.walk(sf) if isinstance(n, ast.ListComp)), None)
